@@ -8,6 +8,7 @@ import SkNet.Lemmas.TopologyTriangles
 import SkNet.Lemmas.TopologyReduce
 import SkNet.Lemmas.TopologyClustering
 import SkNet.Lemmas.TopologyCliquesTop
+import SkNet.Lemmas.TopologyCore
 import Mathlib.Tactic.Ring
 import Mathlib.Tactic.FieldSimp
 import Mathlib.Algebra.Order.Field.Rat
@@ -181,6 +182,74 @@ theorem cliques_refused (n : Nat) (edge : Nat → Nat → Bool) (k : Nat) (perm 
 
 /-- the model's stand-in for `np.argsort` returns a permutation of the nodes -/
 theorem argsort_is_perm (d : List Int) : (argsort d).Perm (List.range d.length) := argsort_perm d
+
+/-! ### the indexed min-heap and the core decomposition -/
+
+/-- ★ `heap_invariant` (1/4): the empty heap satisfies the invariant (heap order on the live prefix, `pos`
+    inverts `val` on it, sizes) -/
+theorem heap_invariant_empty (sc : List Int) (n : Nat) : HeapInv (Heap.empty n) sc n := heapInv_empty sc n
+
+/-- ★ `heap_invariant` (2/4): `insert_key` of a node that is not in the heap keeps the invariant and adds
+    exactly that node -/
+theorem heap_invariant_insert {h : Heap} {sc : List Int} {n k : Nat} (hinv : HeapInv h sc n) (hk : k < n)
+    (hnl : ¬ h.live k) :
+    HeapInv (h.insertKey k sc) sc n ∧ (h.insertKey k sc).size = h.size + 1 ∧
+      ∀ v, (h.insertKey k sc).live v ↔ (h.live v ∨ v = k) :=
+  insertKey_spec' hinv hk hnl
+
+example : HeapInv (Heap.empty 3) [5, 1, 4] 3 ∧ 1 < 3 ∧ ¬ (Heap.empty 3).live 1 :=
+  ⟨heapInv_empty _ _, by decide, not_live_empty 3 1⟩
+
+/-- ★ `heap_invariant` (3/4): after one key has been lowered, `decrease_key` restores the invariant for the new
+    keys and keeps the set of live nodes — also when the node is no longer in the heap and its `pos` entry is
+    stale ("stale positions of removed nodes are harmless") -/
+theorem heap_invariant_decrease {h : Heap} {sc sc' : List Int} {n j : Nat} (hinv : HeapInv h sc n)
+    (hle : sc'.getD j 0 ≤ sc.getD j 0) (hother : ∀ v, v ≠ j → sc'.getD v 0 = sc.getD v 0) :
+    HeapInv (h.decreaseKey j sc') sc' n ∧ (h.decreaseKey j sc').size = h.size ∧
+      ∀ v, (h.decreaseKey j sc').live v ↔ h.live v :=
+  decreaseKey_spec hinv hle hother
+
+example : ([5, 0, 4] : List Int).getD 1 0 ≤ ([5, 1, 4] : List Int).getD 1 0 := by decide
+
+/-- ★ `heap_invariant` (4/4) and `pop_min_is_min`: `pop_min` on a non-empty heap keeps the invariant, removes
+    exactly the returned node, and that node has a minimum key among the live nodes -/
+theorem pop_min_is_min {h : Heap} {sc : List Int} {n : Nat} (hinv : HeapInv h sc n) (hpos : 0 < h.size) :
+    HeapInv (h.popMin sc).2 sc n ∧ (h.popMin sc).2.size = h.size - 1 ∧ h.live (h.popMin sc).1 ∧
+      (∀ v, (h.popMin sc).2.live v ↔ (h.live v ∧ v ≠ (h.popMin sc).1)) ∧
+      (∀ v, h.live v → sc.getD (h.popMin sc).1 0 ≤ sc.getD v 0) :=
+  popMin_spec hinv hpos
+
+example : 0 < ((Heap.empty 3).insertKey 1 [5, 1, 4]).size := by
+  have := (insertKey_spec' (heapInv_empty [5, 1, 4] 3) (by decide : 1 < 3) (not_live_empty 3 1)).2.1
+  omega
+
+/-- ★ `core_exact`: on the CSR structure of every undirected graph (symmetric adjacency predicate, any size)
+    `compute_core` — heap of all nodes keyed by degree, repeated `pop_min`, `core_value = max(core_value, degree)`,
+    one `decrease_key` per neighbour — terminates within `n` rounds and labels every node with its core number:
+    the largest `c` such that the node lies in a set of nodes that all have at least `c` neighbours in the set. -/
+theorem core_exact (n : Nat) (adj : Nat → Nat → Bool) (hsym : ∀ a b, adj a b = adj b a) :
+    ∃ labels : List Int, computeCore (csrOfEdge n adj).indptr (csrOfEdge n adj).indices = some labels ∧
+      labels.length = n ∧
+      ∀ v, v < n → ∃ c : Nat, labels.getD v 0 = (c : Int) ∧ IsCoreNumber n adj v c :=
+  computeCore_spec n adj hsym
+
+/-- the `while not mh.empty()` loop never runs out of the fuel `n` of the model -/
+theorem coreLoop_fuel (n : Nat) (adj : Nat → Nat → Bool) (hsym : ∀ a b, adj a b = adj b a) :
+    computeCore (csrOfEdge n adj).indptr (csrOfEdge n adj).indices ≠ none := by
+  obtain ⟨l, h, _⟩ := computeCore_spec n adj hsym
+  rw [h]; exact Option.some_ne_none l
+
+/-- ★ `count_cliques` end to end (core values, `argsort`, `get_dag`, box, kernel): the number of `k`-cliques -/
+theorem count_cliques_exact (n : Nat) (adj : Nat → Nat → Bool) (hsym : ∀ a b, adj a b = adj b a) (k : Nat)
+    (hk : 2 ≤ k) :
+    countCliques n (csrOfEdge n adj) adj k = .ok (some (cliqueCount n adj k)) := by
+  obtain ⟨labels, h1, h2, _⟩ := computeCore_spec n adj hsym
+  unfold countCliques
+  rw [if_neg (by omega), h1]
+  simp only
+  have hp : (argsort labels).Perm (List.range n) := by rw [← h2]; exact argsort_perm labels
+  rw [cliques_exact n adj hsym k hk _ hp]
+  rfl
 
 /-! ### clustering coefficient -/
 
